@@ -452,6 +452,10 @@ func genC02(r *Rand, tier, profile string) *Case {
 		n = r.Range(480, 560)
 	}
 	pids := map[int]int{}
+	slowRel := n <= 40 && r.Bool(0.2)
+	if slowRel {
+		c.Knobs["manual_pubrel"] = 1
+	}
 	for i := 0; i < n; i++ {
 		p := 10 + r.Intn(npub)
 		pids[p] = pids[p]%60000 + 1
@@ -466,7 +470,14 @@ func genC02(r *Rand, tier, profile string) *Case {
 		if r.Bool(0.05) {
 			gap = int64(r.Range(100, 1500))
 		}
-		c.Steps = append(c.Steps, Step{K: "pub", At: gap, C: p, T: "t/x", S: fmt.Sprintf("m%d", i+1), Q: 1 + r.Intn(2), I: int64(pids[p]), J: int64(pad)})
+		q := 1 + r.Intn(2)
+		c.Steps = append(c.Steps, Step{K: "pub", At: gap, C: p, T: "t/x", S: fmt.Sprintf("m%d", i+1), Q: q, I: int64(pids[p]), J: int64(pad)})
+		if slowRel && q == 2 {
+			// the publisher releases by hand: at once, a little later, or only after the broker's
+			// 3 s deadline for the handshake has passed (then no PUBCOMP is due, and none may come
+			// unless the message was stored after all)
+			c.Steps = append(c.Steps, Step{K: "pkt", At: int64(r.PickInt([]int{2, 2, 60, 900, 4600})), C: p, S: "pubrel", I: int64(pids[p])})
+		}
 	}
 	if slow {
 		c.Steps = append(c.Steps, Step{K: "sleep", At: 10, I: 16000})
@@ -602,6 +613,11 @@ var c07Topics = []string{"a", "a/b", "a/b/c", "a/c", "b"}
 func genC07Race(r *Rand, tier, profile string) *Case {
 	c := &Case{Profile: "retained-race", Knobs: map[string]int64{"nodes": 1}}
 	c.Knobs["sched"] = 1
+	if r.Bool(0.4) {
+		// a second, passive node: what it is told by gossip must agree with what the first node
+		// stored, before any anti-entropy exchange
+		c.Knobs["nodes"] = 2
+	}
 	topic := r.Pick([]string{"a", "a/b", "a/b/c"})
 	var ts []tstep
 	t := int64(1)
@@ -654,6 +670,27 @@ func genC07Race(r *Rand, tier, profile string) *Case {
 
 func judgeRetainedRace(w *world) {
 	endMs := w.nowMs()
+	// replicas agree on the retained messages once the broadcasts are in, without anti-entropy
+	if len(w.nodes) > 1 && len(w.settles) > 0 {
+		if pre := w.settles[0].Pre; pre != nil {
+			w.o.probe("retained_compared_before_anti_entropy")
+			ret := func(l []string) []string {
+				var out []string
+				for _, x := range l {
+					if strings.HasPrefix(x, "R|") {
+						out = append(out, x)
+					}
+				}
+				return out
+			}
+			a, b := ret(pre[0]), ret(pre[1])
+			if strings.Join(a, "\n") != strings.Join(b, "\n") {
+				w.o.violate("C07", "retained-diverged", len(w.c.Steps), endMs, nil,
+					"every broadcast has been delivered (no loss, nothing under way) and no anti-entropy exchange has run yet: node 0 holds the retained messages %v, node 1 holds %v", a, b)
+				return
+			}
+		}
+	}
 	sub := w.clients[1]
 	if sub == nil || !w.clientAliveThrough(sub) {
 		return
@@ -1108,6 +1145,12 @@ func genC14(r *Rand, tier, profile string) *Case {
 		t += 3
 		for k := r.Range(1, 2); k > 0; k-- {
 			tag++
+			if r.Bool(0.2) {
+				// the publishing node's own log refuses the write: it is one failed destination,
+				// the others are still owed their copy
+				ts = append(ts, tstep{t, Step{K: "appendfail", N: pubNode, I: 1}})
+				t++
+			}
 			ts = append(ts, tstep{t, Step{K: "pub", C: 10, T: r.Pick(topics), S: fmt.Sprintf("x%d", tag), Q: 1, I: int64(tag)}})
 			t += int64(r.Range(5, 40))
 		}
@@ -1187,6 +1230,10 @@ func judgeXnode(w *world) {
 		for _, a := range w.appends {
 			if a.Tag == p.tag && !a.Err {
 				perNode[a.Node]++
+			}
+			if a.Tag == p.tag && a.Err && a.Node == pubNode {
+				unreachable[pubNode] = "local-append-failed"
+				w.o.probe("publishes_with_failed_local_append")
 			}
 		}
 		for _, n := range w.nodes {
